@@ -17,6 +17,7 @@ KeyHash == ("k0" :> 0 @@ "k1" :> 5 @@ "k2" :> 7)
 Rank(k, p) == 1 + Cardinality({q \in DOMAIN ProvHash : (ProvHash[q] ^^ KeyHash[k]) < (ProvHash[p] ^^ KeyHash[k])})
 
 ExpsDef == {Never, 0, 1, 2, 5}
+ExpsNever == {Never}
 
 VARIABLES st, last, hist, nops
 vars == <<st, last, hist, nops>>
